@@ -4,6 +4,7 @@ package main
 
 import (
 	"fmt"
+	"go/constant"
 	"go/types"
 	"sort"
 	"strings"
@@ -99,10 +100,13 @@ func CheckFunc(P *Program, fn *ssa.Function, c *FuncContract) (rep *FuncReport) 
 	ex.addAxioms(c.PkgPath)
 	// parameters
 	vars := map[string]tv{}
-	for _, prm := range fn.Params {
+	for i, prm := range fn.Params {
 		v := ex.symbolicInput(st, "in:"+prm.Name(), prm.Type())
 		st.vals[prm] = v
 		vars[prm.Name()] = tv{v, prm.Type()}
+		if i == 0 && fn.Signature.Recv() != nil {
+			vars["self"] = tv{v, prm.Type()}
+		}
 	}
 	for _, fv := range fn.FreeVars {
 		v := ex.symbolicInput(st, "free:"+fv.Name(), fv.Type())
@@ -205,6 +209,31 @@ func CheckFunc(P *Program, fn *ssa.Function, c *FuncContract) (rep *FuncReport) 
 		o := ex.obligeNamed(final, "ensures", label, e.Text, g, fmt.Sprintf("%s:%d", relPath(P, e.File), e.Line))
 		if o != nil {
 			o.Clause = e
+			// one query per return statement: the same obligation, without the ite-merging of the return states
+			if len(fr.rets) >= 2 && len(fr.rets) <= 80 {
+				for ri, r := range fr.rets {
+					if r.st.pc.IsFalse() {
+						continue
+					}
+					pc := &EvalCtx{ex: ex, st: r.st, old: ex.old, vars: map[string]tv{}, pkgPath: c.PkgPath}
+					for k, v := range vars {
+						pc.vars[k] = v
+					}
+					var rv Val
+					switch nres {
+					case 0:
+						rv = TupleV{}
+					case 1:
+						rv = r.vals[0]
+					default:
+						rv = TupleV(r.vals)
+					}
+					bindResults(pc.vars, fn.Signature, rv)
+					gr := ex.evalBool(pc, e)
+					o.Parts = append(o.Parts, oblPart{PC: r.st.pc, Goal: gr, What: fmt.Sprintf("return #%d", ri)})
+				}
+				o.NFacts = len(ex.facts)
+			}
 		}
 	}
 	return
@@ -250,7 +279,11 @@ func (ex *Exec) addAxioms(pkgPath string) {
 			bound = append(bound, bv)
 			vars[sp.Name] = tv{bv, ex.specGoType(sp.Type, pkgPath)}
 		}
-		ctx := &EvalCtx{ex: ex, st: ex.emptyState(), vars: vars, pkgPath: pkgPath, clause: a.Body}
+		apkg := pkgPath
+		if a.PkgPath != "" {
+			apkg = a.PkgPath
+		}
+		ctx := &EvalCtx{ex: ex, st: ex.emptyState(), vars: vars, pkgPath: apkg, clause: a.Body}
 		func() {
 			defer func() {
 				if r := recover(); r != nil {
@@ -261,7 +294,15 @@ func (ex *Exec) addAxioms(pkgPath string) {
 				}
 			}()
 			body := ctx.asTerm(ctx.eval(a.Body.Expr))
-			ex.facts = append(ex.facts, ex.p.Forall(bound, body))
+			var pats [][]*Term
+			if len(a.Triggers) > 0 {
+				var ps []*Term
+				for _, te := range a.Triggers {
+					ps = append(ps, ctx.asTerm(ctx.eval(te)))
+				}
+				pats = append(pats, ps)
+			}
+			ex.facts = append(ex.facts, ex.p.Forall(bound, body, pats...))
 			ex.assumptions["axiom "+a.Name+": "+a.Body.Text] = true
 		}()
 	}
@@ -360,4 +401,157 @@ func (ex *Exec) addFieldInputs(fn *ssa.Function) {
 		}
 		rec("in:"+prm.Name(), base, prm.Type(), 0)
 	}
+}
+
+// InstantiateSchemas turns obligation schemas into per-function contracts, enumerating the functions from go/types.
+func InstantiateSchemas(P *Program) []string {
+	var errs []string
+	for _, sc := range P.CS.Schemas {
+		sp := P.ByPath[sc.PkgPath]
+		if sp == nil {
+			continue
+		}
+		if sc.Kind != "exported-methods" {
+			errs = append(errs, fmt.Sprintf("%s:%d: unknown schema kind %s", sc.File, sc.Line, sc.Kind))
+			continue
+		}
+		tname := strings.TrimPrefix(sc.Type, "*")
+		tn, ok := sp.Pkg.Scope().Lookup(tname).(*types.TypeName)
+		if !ok {
+			errs = append(errs, fmt.Sprintf("%s:%d: schema type %s not found", sc.File, sc.Line, sc.Type))
+			continue
+		}
+		var recv types.Type = tn.Type()
+		if strings.HasPrefix(sc.Type, "*") {
+			recv = types.NewPointer(recv)
+		}
+		ms := P.SSA.MethodSets.MethodSet(recv)
+		n := 0
+		for i := 0; i < ms.Len(); i++ {
+			sel := ms.At(i)
+			if !sel.Obj().Exported() {
+				continue
+			}
+			skip := false
+			for _, e := range sc.Except {
+				if e == sel.Obj().Name() {
+					skip = true
+				}
+			}
+			if skip {
+				continue
+			}
+			fn := P.SSA.MethodValue(sel)
+			if fn == nil || fn.Synthetic != "" {
+				continue // promoted through embedding: covered where it is declared
+			}
+			key := fn.RelString(sp.Pkg)
+			full := sc.PkgPath + "." + key
+			if _, exists := P.CS.Funcs[full]; exists {
+				continue // an explicit contract takes precedence
+			}
+			fc := &FuncContract{Key: key, PkgPath: sc.PkgPath, File: sc.File, Line: sc.Line, Props: sc.Props, Loops: map[int]*LoopSpec{},
+				Asserts: map[string][]*Clause{}, Requires: sc.Requires, NoCalls: sc.NoCalls, Allow: sc.Allow, HasMod: false,
+				SchemaOf: sc.Kind + " " + sc.Type}
+			res := fn.Signature.Results()
+			for r := 0; r < res.Len(); r++ {
+				name := fmt.Sprintf("result%d", r)
+				var txt, label string
+				if types.Identical(res.At(r).Type(), types.Universe.Lookup("error").Type()) {
+					if sc.ErrExpr == "" {
+						continue
+					}
+					txt, label = name+" == "+sc.ErrExpr, "explicit-error"
+				} else {
+					if !sc.Zero {
+						continue
+					}
+					txt, label = "isZero("+name+")", fmt.Sprintf("no-data[%d]", r)
+				}
+				e, err := parseSpecExpr(txt)
+				if err != nil {
+					errs = append(errs, err.Error())
+					continue
+				}
+				fc.Ensures = append(fc.Ensures, &Clause{Label: label, Text: txt, Expr: e, File: sc.File, Line: sc.Line, Props: sc.Props})
+			}
+			P.CS.Funcs[full] = fc
+			n++
+		}
+		if n == 0 {
+			errs = append(errs, fmt.Sprintf("%s:%d: schema over %s enumerated no functions", sc.File, sc.Line, sc.Type))
+		}
+	}
+	return errs
+}
+
+func normSQL(s string) string {
+	s = strings.Join(strings.Fields(s), " ")
+	s = strings.TrimSuffix(strings.TrimSpace(s), ";")
+	return strings.TrimSpace(s)
+}
+
+func looksLikeSQL(s string) bool {
+	u := strings.ToUpper(strings.TrimSpace(s))
+	for _, kw := range []string{"SELECT ", "INSERT ", "DELETE ", "UPDATE ", "WITH ", "REPLACE "} {
+		if strings.HasPrefix(u, kw) {
+			return true
+		}
+	}
+	return false
+}
+
+// CheckSQLPins: the SQL statements whose semantics a trusted data-access contract assumes must be exactly the
+// statements in the function's current source (string constants of its SSA, closures included).
+func CheckSQLPins(P *Program, fn *ssa.Function, c *FuncContract) *FuncReport {
+	ex := NewExec(P)
+	ex.top = fn
+	rep := &FuncReport{Func: ex.fnName(fn), Key: c.Key, ex: ex}
+	found := map[string]bool{}
+	var scan func(f *ssa.Function)
+	scan = func(f *ssa.Function) {
+		for _, b := range f.Blocks {
+			for _, in := range b.Instrs {
+				for _, op := range in.Operands(nil) {
+					if k, ok := (*op).(*ssa.Const); ok && k.Value != nil && k.Value.Kind() == constant.String {
+						s := constant.StringVal(k.Value)
+						if looksLikeSQL(s) {
+							found[normSQL(s)] = true
+						}
+					}
+				}
+			}
+		}
+		for _, a := range f.AnonFuncs {
+			scan(a)
+		}
+	}
+	scan(fn)
+	pinned := map[string]bool{}
+	for i, t := range c.SQLTexts {
+		pinned[normSQL(t)] = true
+		goal := ex.p.Bool(found[normSQL(t)])
+		o := &Obligation{Name: fmt.Sprintf("%s#sql.text[%d]", ex.fnName(fn), i), Kind: "sql.text",
+			Detail: "the statement the assumed contract was written for is the statement in the source: " + normSQL(t),
+			Goal:   goal, PC: ex.p.True(), Func: ex.fnName(fn), Props: c.Props, Pos: P.pos(fn.Pos())}
+		ex.obls = append(ex.obls, o)
+	}
+	i := 0
+	var extra []string
+	for f := range found {
+		if !pinned[f] {
+			extra = append(extra, f)
+		}
+	}
+	sort.Strings(extra)
+	for _, f := range extra {
+		o := &Obligation{Name: fmt.Sprintf("%s#sql.unpinned[%d]", ex.fnName(fn), i), Kind: "sql.text",
+			Detail: "a statement in the source is not covered by the assumed contract: " + f,
+			Goal:   ex.p.False(), PC: ex.p.True(), Func: ex.fnName(fn), Props: c.Props, Pos: P.pos(fn.Pos())}
+		ex.obls = append(ex.obls, o)
+		i++
+	}
+	rep.Obligations = ex.obls
+	rep.Assumptions = []string{"SQL semantics of the pinned statements of " + ex.fnName(fn) + " are as its assumed contract states (A5)"}
+	return rep
 }
